@@ -1169,7 +1169,10 @@ func (g *gen) lim() string {
 }
 
 func (g *gen) loweringTemplate() string {
-	k := g.pick("tmpl", 22)
+	k := g.pick("tmpl", 24)
+	if k >= 22 {
+		k = 5 // the aggregate traversal count shape has the narrowest eligibility of all: drawn three times as often
+	}
 	g.feat(fmt.Sprintf("template-%d", k))
 	switch k {
 	case 0: // count fast paths
@@ -1229,7 +1232,7 @@ func (g *gen) loweringTemplate() string {
 		}
 		distinct := rapid.SampledFrom([]string{"distinct ", "distinct ", ""}).Draw(g.t, "t5d")
 		ret := rapid.SampledFrom([]string{"u order by cnt desc", "u order by cnt desc", "u, cnt order by cnt desc", "u.name, cnt order by cnt desc"}).Draw(g.t, "t5ret")
-		return "match (u" + g.optKind("t5k") + ")" + where("u", "t5w1") + " match (u)-[:" + g.eks() + g.rng() + "]->(c" + g.optKind("t5k2") + ")" + where("c", "t5w2") + " with " + distinct + "u, count(c) as cnt return " + ret + g.lim()
+		return "match (u" + g.optKind("t5k") + ")" + where("u", "t5w1") + " match (u)-[:" + g.eks() + rapid.SampledFrom([]string{"*1..", "*0..", "*0..", "*1..2", "*0..2", "*", "*..2", "*1..3", "*0..1", "*2..2"}).Draw(g.t, "t5rng") + "]->(c" + g.optKind("t5k2") + ")" + where("c", "t5w2") + " with " + distinct + "u, count(c) as cnt return " + ret + g.lim()
 	case 6: // quantifier over relationships(p)
 		q := rapid.SampledFrom([]string{"all", "any", "none"}).Draw(g.t, "t6q")
 		pred := rapid.SampledFrom([]string{"r.value > 0", "r.flag = true", "r.name = 'a'", "type(r) = 'R'", "r.value <= 2"}).Draw(g.t, "t6p")
